@@ -76,6 +76,14 @@ reg('C03', 'Hypothesis generated recordings/spikes/channel rows, all routes vs d
     '(np.load of the file) and store lookup; each result is compared exactly with the zero-padded '
     'window defined in the statement.', TRUST + ' mtscomp as codec.')
 
+DS = ' Datasets have >=2 spikes/templates/channels/samples (squeeze degeneracy is a documented precondition).'
+reg('C04', 'Hypothesis generated dataset directories (switch product) vs stored-array oracle + file hashes',
+    'Dataset directories are generated over the product of naming schemes, vector shapes, optional '
+    'files, dense/sparse templates, dtypes, raw backends and NaN injection; every public attribute '
+    'of the loaded model is compared with the arrays the generator stored (documented defaults for '
+    'absent files), non-monotonic variants must be rejected, and SHA-256 hashes of the directory '
+    'before/after loading decide the no-modification / created-files clauses.', TRUST + DS)
+
 
 def main():
     props = [json.loads(l) for l in (HERE / 'properties.jsonl').read_text().splitlines() if l.strip()]
